@@ -180,6 +180,31 @@ func icmp6(data []byte) []byte { return append([]byte{128, 0, 0x12, 0x34, 0, 1, 
 
 func gre(inner []byte) []byte { return append([]byte{0, 0, 0x08, 0x00}, inner...) }
 
+// fixLengths makes the IPv4/IPv6 and UDP length fields of an Ethernet frame
+// agree with its size again after bytes were inserted or removed behind them.
+func fixLengths(b []byte) {
+	if len(b) < 14 {
+		return
+	}
+	off, et := 14, binary.BigEndian.Uint16(b[12:])
+	if et == 0x8100 && len(b) >= 18 {
+		off, et = 18, binary.BigEndian.Uint16(b[16:])
+	}
+	switch {
+	case et == 0x0800 && len(b) >= off+20:
+		ihl := int(b[off]&0xf) * 4
+		binary.BigEndian.PutUint16(b[off+2:], uint16(len(b)-off))
+		if b[off+9] == 17 && len(b) >= off+ihl+8 {
+			binary.BigEndian.PutUint16(b[off+ihl+4:], uint16(len(b)-off-ihl))
+		}
+	case et == 0x86dd && len(b) >= off+40:
+		binary.BigEndian.PutUint16(b[off+4:], uint16(len(b)-off-40))
+		if b[off+6] == 17 && len(b) >= off+48 {
+			binary.BigEndian.PutUint16(b[off+44:], uint16(len(b)-off-40))
+		}
+	}
+}
+
 // corpus draws 4..12 inputs: well-formed stacks plus truncations and bit flips.
 func corpus(c *sim.Ctx, big bool) ([][]byte, []gopacket.Decoder) {
 	var out [][]byte
@@ -242,6 +267,73 @@ func corpus(c *sim.Ctx, big bool) ([][]byte, []gopacket.Decoder) {
 				}
 			}
 			c.Fault("near_duplicate_input")
+		}
+		if c.Chance(120) {
+			// text protocols: one to three runs of ASCII digits are replaced by
+			// numbers a parser may choke on (several fields can be bad at once)
+			for k := 1 + c.Draw(3); k > 0; k-- {
+				var runs [][2]int
+				for i := 0; i < len(b); i++ {
+					if b[i] >= '0' && b[i] <= '9' && (i == 0 || b[i-1] == ' ' || b[i-1] == ':' || b[i-1] == '=') {
+						j := i
+						for j < len(b) && b[j] >= '0' && b[j] <= '9' {
+							j++
+						}
+						runs = append(runs, [2]int{i, j})
+						i = j
+					}
+				}
+				if len(runs) == 0 {
+					break
+				}
+				r := runs[c.Draw(len(runs))]
+				rep := []string{"-129", "4294967296", "99999999999999999999", "0", "-0", "1e9"}[c.Draw(6)]
+				b = append(append(append([]byte(nil), b[:r[0]]...), rep...), b[r[1]:]...)
+			}
+			if first == gopacket.Decoder(layers.LayerTypeEthernet) || first == gopacket.Decoder(layers.LinkTypeEthernet) {
+				fixLengths(b)
+			}
+			c.Fault("numbers_in_text_replaced")
+		}
+		if c.Chance(120) {
+			// header-style lines "Name: <number>": each number is replaced with
+			// probability 1/2, so that several header fields are malformed at once
+			var out2 []byte
+			changed := false
+			for i := 0; i < len(b); {
+				if (i == 0 || b[i-1] == '\n') && i < len(b) {
+					j := i
+					for j < len(b) && j-i < 32 && (b[j] == '-' || b[j]|0x20 >= 'a' && b[j]|0x20 <= 'z') {
+						j++
+					}
+					if j > i && j < len(b) && b[j] == ':' {
+						k := j + 1
+						for k < len(b) && b[k] == ' ' {
+							k++
+						}
+						e := k
+						for e < len(b) && b[e] >= '0' && b[e] <= '9' {
+							e++
+						}
+						if e > k && c.Draw(2) == 1 {
+							out2 = append(out2, b[i:k]...)
+							out2 = append(out2, []string{"-129", "4294967296", "99999999999999999999", "-0"}[c.Draw(4)]...)
+							i = e
+							changed = true
+							continue
+						}
+					}
+				}
+				out2 = append(out2, b[i])
+				i++
+			}
+			if changed {
+				b = out2
+				if first == gopacket.Decoder(layers.LayerTypeEthernet) || first == gopacket.Decoder(layers.LinkTypeEthernet) {
+					fixLengths(b)
+				}
+				c.Fault("header_numbers_replaced")
+			}
 		}
 		switch c.Weighted(5, 2, 2) {
 		case 1:
